@@ -573,7 +573,7 @@ func replaySchedule(id string, sched []schedStep) wj.J {
 	finished := make(chan struct{})
 	go func() { wg.Wait(); close(finished) }()
 	hung := false
-	timeout := time.After(5 * time.Second)
+	timeout := time.After(60 * time.Second) // generous: only a real hang gets here, a loaded machine must not
 loop:
 	for {
 		for _, c := range clients {
